@@ -186,8 +186,9 @@ Notation PairOK := (PairOK A cfg deny hy).
 
 (* ---- the accepted run, both texts ---- *)
 Lemma first_run d b a : bytes d -> to_ascii A cfg d deny hy DIgnore = Ok (b, a) ->
-  a = d \/
-  exists pl DBL ap bd os ou bu, Forall PassL pl /\ DBL <> [] /\ Forall2 PairOK DBL ap /\
+  (a = d /\ ascii d /\ to_unicode A cfg d deny hy = UI true d false) \/
+  exists pl DBL ap bd os ou bu, process_inner A cfg true hy deny d = IRes (len (ptext pl)) bd false (join_dots DBL) ap /\
+    Forall PassL pl /\ DBL <> [] /\ Forall2 PairOK DBL ap /\
     is_bidi A cfg (join_dots DBL) = Ok bd /\ (bd = true -> Forall (BOKl A) DBL) /\
     outs cfg is_ascii_l DBL ap = inl os /\ os <> [] /\ a = join_dots (pl ++ os) /\
     outs cfg uT DBL ap = inl ou /\ ou <> [] /\ to_unicode A cfg d deny hy = UI bu (join_dots (pl ++ ou)) false.
@@ -195,10 +196,12 @@ Proof.
   intros Hb H. pose proof (redisc_of_adapter A cfg deny (ok_nil A HOK) HU) as HR.
   destruct (process_inner A cfg true hy deny d) as [ptu bd he db ap|s] eqn:Ei.
   2:{ unfold to_ascii, process in H. rewrite Ei in H. discriminate. }
-  destruct (inner_facts A cfg true hy deny d _ _ _ _ _ Hb Ei) as [(_ & -> & -> & Hne)|[(-> & -> & _)|[HB Hm]]].
+  destruct (inner_facts A cfg true hy deny d _ _ _ _ _ Hb Ei) as [(_ & -> & -> & Hne)|[(-> & -> & Had)|[HB Hm]]].
   - exfalso. unfold to_ascii, process in H. rewrite Ei in H.
     destruct (0 =? len d) eqn:E; [apply len_nil_iff in E; contradiction|]. cbn [andb] in H. discriminate.
-  - left. unfold to_ascii, process in H. rewrite Ei, N.eqb_refl, andb_false_r in H. inversion H. reflexivity.
+  - left. unfold to_ascii, process in H. rewrite Ei, N.eqb_refl, andb_false_r in H. cbn [dns_is_ignore negb] in H. inversion H. subst a. split; [reflexivity|]. split; [exact Had|].
+    destruct (inner_ff_facts A cfg hy deny d _ _ _ _ _ Ei) as [HX|[_ Hm]]; [inversion HX|].
+    unfold to_unicode, to_user_interface, process. rewrite Hm, N.eqb_refl, andb_false_r. reflexivity.
   - right. assert (Hlt : ptu <> len d) by (destruct HB as [Hx _]; lia).
     destruct he.
     { exfalso. unfold to_ascii, process in H. rewrite Ei in H.
@@ -227,27 +230,9 @@ Theorem u_of_a_text d b a : bytes d -> to_ascii A cfg d deny hy DIgnore = Ok (b,
   exists bu bu' u, to_unicode A cfg d deny hy = UI bu u false /\ to_unicode A cfg a deny hy = UI bu' u false.
 Proof.
   intros Hb H Hlong. pose proof (redisc_of_adapter A cfg deny (ok_nil A HOK) HU) as HR.
-  destruct (first_run d b a Hb H) as [->|(pl & DBL & ap & bd & os & ou & bu & Hpl & HD & HPK & Hbidi & Hbok & Eo & Hos & Ha & Eu & Hou & HTu)].
+  destruct (first_run d b a Hb H) as [(-> & _ & HTd)|(pl & DBL & ap & bd & os & ou & bu & _ & Hpl & HD & HPK & Hbidi & Hbok & Eo & Hos & Ha & Eu & Hou & HTu)].
   - (* the whole name was passed through: a = d *)
-    pose proof (ui_err_of_accept A cfg d deny hy b d HR H) as He.
-    destruct (to_unicode A cfg d deny hy) as [bu t e|s] eqn:E.
-    + cbn [ui_err] in He. subst e. exists bu, bu, t. split; reflexivity.
-    + exfalso. unfold to_unicode, to_user_interface in E. unfold to_ascii in H.
-      destruct (process_inner A cfg true hy deny d) as [ptu bd he db ap|s0] eqn:Ei.
-      2:{ unfold process in H. rewrite Ei in H. discriminate. }
-      destruct (inner_facts A cfg true hy deny d _ _ _ _ _ Hb Ei) as [(_ & -> & -> & Hne)|[(-> & -> & _)|[HB Hm]]].
-      * unfold process in H. rewrite Ei in H. destruct (0 =? len d) eqn:E0; [apply len_nil_iff in E0; contradiction|]. cbn [andb] in H. discriminate.
-      * destruct (inner_ff_facts A cfg hy deny d _ _ _ _ _ Ei) as [HX|[_ Hm]]; [inversion HX|].
-        unfold process in E. rewrite Hm, N.eqb_refl, andb_false_r in E. discriminate.
-      * assert (Hlt : ptu <> len d) by (destruct HB as [Hx _]; lia).
-        destruct he.
-        { unfold process in H. rewrite Ei in H. replace (ptu =? len d) with false in H by (symmetry; apply N.eqb_neq; exact Hlt). cbn [andb] in H. discriminate. }
-        destruct (drun A cfg deny hy HU HL HOK HUSV HNT HNI HNM HMP d ptu bd db ap Hb Ei Hlt)
-          as (pl & done & DBL & Hpl & Hdn & Hd2 & Hptu & _).
-        destruct done as [|l rest]; [contradiction Hdn; reflexivity|]. subst ptu.
-        assert (Hlt2 : len (ptext pl) < len d) by (destruct HB as [Hx _]; lia).
-        destruct (to_unicode_text A cfg deny hy d pl l rest bd _ _ Hb Hd2 Hlt2 Ei) as (_ & bu & ou & _ & HTu).
-        unfold to_unicode, to_user_interface in HTu. rewrite E in HTu. discriminate.
+    exists true, true, d. split; exact HTd.
   - (* the walking branch *)
     pose proof (pairok_all_nodot A cfg deny hy _ _ HPK) as HDn.
     destruct (outs_nodot A cfg deny hy HU HL DBL ap os HPK Eo) as [Hosn Hosl].
